@@ -457,6 +457,10 @@ func (buf *FetchMessageBuffer) populateItemData(item FetchItemData) error {
 }
 
 func (c *Client) handleFetch(seqNum uint32) error {
+	if seqNum == 0 {
+		return fmt.Errorf("imapclient: server returned sequence number 0 in FETCH response")
+	}
+
 	dec := c.dec
 
 	items := make(chan FetchItemData, 32)
